@@ -479,7 +479,7 @@ def facts(src):
                     json_value=order))
     sinks = config_sinks(src)
     out.append(Fact("configSinks", "List (String × String × String)",
-                    None if not sinks else lean_list("(%s, %s, %s)" % tuple(lean_str(x) for x in s) for s in sinks), ["C08"],
+                    None if not sinks else lean_list("(%s, %s, %s)" % tuple(lean_str(x) for x in s) for s in sinks), ["C08", "C13"],
                     "for every class of jsonrpc.py / SimpleJSONRPCServer.py whose constructor takes a configuration: the "
                     "attributes of the new object bound to it, directly or through the constructor of a base class it is "
                     "forwarded to (\"\" = the configuration is not kept)", json_value=None if sinks is None else [list(x) for x in sinks]))
